@@ -591,6 +591,12 @@ impl Check for C19Check {
                 io_seed: cfg.io_seed,
                 io_hard: io_hard_of(cfg, &paths),
                 stale_output: stale_of(cfg.argv_seed, "serial_number,trg_time,reconstructed_x,reconstructed_y,reconstructed_z", "{k},12.5,0.001,0.002,0.003", stats),
+                clock_seed: if (cfg.argv_seed >> 17) % 4 == 0 {
+                    stats.fault("clock_jumps_forward_in_the_program");
+                    Some(cfg.argv_seed >> 20 | 1)
+                } else {
+                    None
+                },
             };
             if cfg.io_seed.is_some() {
                 stats.fault("io_short_reads_writes_and_eintr");
@@ -698,7 +704,7 @@ impl Check for C19Check {
         let mut stails: Vec<Vec<u8>> = Vec::new();
         for (ci, cfg) in scn.cfgs.iter().take(2).enumerate() {
             let argv: Vec<_> = Rng::new(cfg.argv_seed ^ 0x55).perm(paths.len()).into_iter().map(|k| path_form(cfg.argv_seed ^ 0x5500, k)).collect();
-            let env = RunEnv { hash_seed: Some(cfg.hash_seed), real_rayon: true, io_seed: cfg.io_seed, io_hard: io_hard_of(cfg, &paths), stale_output: stale_of(cfg.argv_seed ^ 0x5500, "serial_number,trg_time,input,drift_veto,scaledown,pulser,output", "{k},12.5,1,2,3,4,5", stats), ..Default::default() };
+            let env = RunEnv { hash_seed: Some(cfg.hash_seed), real_rayon: true, io_seed: cfg.io_seed, io_hard: io_hard_of(cfg, &paths), stale_output: stale_of(cfg.argv_seed ^ 0x5500, "serial_number,trg_time,input,drift_veto,scaledown,pulser,output", "{k},12.5,1,2,3,4,5", stats), clock_seed: if (cfg.argv_seed >> 18) % 2 == 0 { Some(cfg.argv_seed >> 21 | 1) } else { None }, ..Default::default() };
             let extra: Vec<&str> = if cfg.verbose { vec!["--verbose"] } else { vec![] };
             stats.executions += 1;
             let res = run_binary("alpha-g-trg-scalers", &scratch.dir, &argv, &extra, &format!("sca{ci}"), &env);
